@@ -5,49 +5,65 @@
 \* (after which the connection is persistent: answered, kept open, never timed out).  A service at tyme t
 \*   1. closes the connection if it is not persistent and t - last >= T   (last = tyme of the last traffic),
 \*   2. otherwise reads what arrived (traffic: last := t) and answers a complete request (traffic as well).
-EXTENDS Naturals, Sequences, TLC
+\* The server may be wound onto another Tymist between two services (Server.wind): virtual tyme then continues from
+\* another base, earlier or later, and the idle period of every open connection starts anew at the new tymist's tyme.
+\* `tyme` counts services; the tymist reads tyme + base.
+EXTENDS Integers, Sequences, TLC
 CONSTANTS T,          \* time-out in ticks (> 0)
           MaxTyme,
+          Bases,      \* tyme bases a Tymist may be wound to (integers, negative = earlier)
           Pats        \* answers of the application to a non persistent request: sequences over {"p", "g"}, one element per
                       \* service ("p": a piece of the body is written = traffic, "g": nothing yet), or <<"stall">>: nothing, for ever
-VARIABLES tyme, state, last, h, pat
-vars == <<tyme, state, last, h, pat>>
-Init == tyme = 0 /\ state = "new" /\ last = 0 /\ h = <<>> /\ pat = <<>>
-Log(ev) == h' = Append(h, [ev |-> ev, tyme |-> tyme, state |-> state'])
+VARIABLES tyme, state, last, h, pat, base
+vars == <<tyme, state, last, h, pat, base>>
+Init == tyme = 0 /\ state = "new" /\ last = 0 /\ h = <<>> /\ pat = <<>> /\ base = 0
+Log(ev, idle) == h' = Append(h, [ev |-> ev, tyme |-> tyme, state |-> state', idle |-> idle])
 \* a complete NON persistent request (HTTP/1.1 with Connection: close) arrives: the application answers according to
 \* pattern q; the first element is served in the same service call
-Answer(q) == IF q = <<"stall">> THEN pat' = q /\ state' = "answering" /\ last' = tyme                  \* request bytes were traffic
-             ELSE IF q = <<>> THEN pat' = <<>> /\ state' = "ended" /\ last' = tyme                     \* empty body: head + end
-             ELSE pat' = Tail(q) /\ state' = (IF Tail(q) = <<>> /\ FALSE THEN "ended" ELSE "answering") /\ last' = tyme
-Stream == \* one service of a connection whose non persistent request is being answered
-  IF tyme - last >= T THEN state' = "closed" /\ UNCHANGED <<last, pat>>
-  ELSE IF pat = <<"stall">> THEN UNCHANGED <<state, last, pat>>
-  ELSE IF pat = <<>> THEN state' = "ended" /\ last' = tyme /\ UNCHANGED pat                            \* the end of the body is written
-  ELSE /\ pat' = Tail(pat) /\ UNCHANGED state /\ last' = (IF Head(pat) = "p" THEN tyme ELSE last)
-\* one call of service() at the current tyme, `ev` is what the client did since the previous call
+Answer(q, now) == IF q = <<"stall">> THEN pat' = q /\ state' = "answering" /\ last' = now             \* request bytes were traffic
+                  ELSE IF q = <<>> THEN pat' = <<>> /\ state' = "ended" /\ last' = now                \* empty body: head + end
+                  ELSE pat' = Tail(q) /\ state' = "answering" /\ last' = now
+Stream(now, lst) == \* one service of a connection whose non persistent request is being answered
+  IF now - lst >= T THEN state' = "closed" /\ last' = lst /\ UNCHANGED pat
+  ELSE IF pat = <<"stall">> THEN last' = lst /\ UNCHANGED <<state, pat>>
+  ELSE IF pat = <<>> THEN state' = "ended" /\ last' = now /\ UNCHANGED pat                            \* the end of the body is written
+  ELSE /\ pat' = Tail(pat) /\ UNCHANGED state /\ last' = (IF Head(pat) = "p" THEN now ELSE lst)
+\* one call of service() at the current tyme, `ev` is what happened since the previous call: what the client did, or
+\* <<"wind", b>>: the server was wound onto a tymist that reads tyme + b (the client did nothing)
 Service(ev) ==
   /\ tyme < MaxTyme
-  /\ IF state = "new" THEN                                      \* accepted now: the idle period starts
-        IF ev[1] = "reqclose" THEN Answer(ev[2])
-        ELSE state' = (IF ev[1] = "request" THEN "persistent" ELSE "open") /\ last' = tyme /\ UNCHANGED pat
-     ELSE IF state = "open" THEN
-        IF tyme - last >= T THEN state' = "closed" /\ UNCHANGED <<last, pat>>    \* idle for T: closed, whatever arrives now
-        ELSE IF ev[1] = "none" THEN UNCHANGED <<state, last, pat>>
-        ELSE IF ev[1] = "reqclose" THEN Answer(ev[2])
-        ELSE state' = (IF ev[1] = "request" THEN "persistent" ELSE "open") /\ last' = tyme /\ UNCHANGED pat
-     ELSE IF state = "answering" THEN Stream
-     ELSE IF state = "ended" THEN state' = "closed" /\ UNCHANGED <<last, pat>>   \* answer complete, not persistent: closed
-     ELSE UNCHANGED <<state, last, pat>>                       \* persistent: never timed out; closed: stays closed
-  /\ tyme' = tyme + 1 /\ Log(ev)
-Evs == {<<"none">>, <<"bytes">>, <<"request">>} \cup {<<"reqclose", q>> : q \in Pats}
+  /\ LET w == ev[1] = "wind"
+         b == IF w THEN ev[2] ELSE base
+         now == tyme + b
+         lst == IF w /\ state # "new" THEN now ELSE last          \* a wind restarts the idle period at the new tymist's tyme
+         e == IF w THEN <<"none">> ELSE ev IN
+     /\ base' = b
+     /\ IF state = "new" THEN                                      \* accepted now: the idle period starts
+           IF e[1] = "reqclose" THEN Answer(e[2], now)
+           ELSE state' = (IF e[1] = "request" THEN "persistent" ELSE "open") /\ last' = now /\ UNCHANGED pat
+        ELSE IF state = "open" THEN
+           IF now - lst >= T THEN state' = "closed" /\ last' = lst /\ UNCHANGED pat    \* idle for T: closed, whatever arrives now
+           ELSE IF e[1] = "none" THEN last' = lst /\ UNCHANGED <<state, pat>>
+           ELSE IF e[1] = "reqclose" THEN Answer(e[2], now)
+           ELSE state' = (IF e[1] = "request" THEN "persistent" ELSE "open") /\ last' = now /\ UNCHANGED pat
+        ELSE IF state = "answering" THEN Stream(now, lst)
+        ELSE IF state = "ended" THEN state' = "closed" /\ last' = lst /\ UNCHANGED pat   \* answer complete, not persistent: closed
+        ELSE last' = lst /\ UNCHANGED <<state, pat>>               \* persistent: never timed out; closed: stays closed
+     /\ Log(ev, now - lst)
+  /\ tyme' = tyme + 1
+Evs == {<<"none">>, <<"bytes">>, <<"request">>} \cup {<<"reqclose", q>> : q \in Pats} \cup {<<"wind", b>> : b \in Bases}
+Winds == {i \in DOMAIN h : h[i].ev[1] = "wind"}
 \* once a request is being answered the client is silent (the property is about the server's side then)
-Next == \E ev \in Evs : (state \in {"answering", "ended", "persistent", "closed"} => ev = <<"none">>) /\ Service(ev)
+Next == \E ev \in Evs : /\ (state \in {"answering", "ended", "persistent", "closed"} => ev[1] \in {"none", "wind"})
+                        /\ (ev[1] = "wind" => (Winds = {} /\ state \in {"open", "answering", "persistent"} /\ ev[2] # base))
+                        /\ Service(ev)
 Spec == Init /\ [][Next]_vars
 -----------------------------------------------------------------------------
 \* C12
 NotPersistent == state \in {"open", "answering"}
-ClosedOnlyIfIdle == [][(NotPersistent /\ state' = "closed") => tyme - last >= T]_vars
-IdleGetsClosed == [][(NotPersistent /\ tyme - last >= T) => state' = "closed"]_vars
-TrafficKeepsOpen == [][(NotPersistent /\ tyme - last < T) => state' # "closed"]_vars
+Idle == h'[Len(h')].idle             \* how long the connection had been without traffic at the service of this step
+ClosedOnlyIfIdle == [][(NotPersistent /\ state' = "closed") => Idle >= T]_vars
+IdleGetsClosed == [][(NotPersistent /\ Idle >= T) => state' = "closed"]_vars
+TrafficKeepsOpen == [][(NotPersistent /\ Idle < T) => state' # "closed"]_vars
 PersistentStays == [][state = "persistent" => state' = "persistent"]_vars
 ====
